@@ -24,6 +24,7 @@ from .boot import VERIF, ensure_shim_built
 from .workload import derive_seed
 
 ENGINE_PROP = {"K": "C05", "S": "C13", "T": "C14", "P": "C15"}
+TIER = os.environ.get("TSIM_SELFTEST_TIER", "quick")
 
 
 def determinism(engines, n):
@@ -34,7 +35,7 @@ def determinism(engines, n):
         runs = []
         for nw, ambient in ((16, "0"), (16, "12345"), (8, "777")):
             os.environ["PYTHONHASHSEED"] = ambient  # the ambient value must not matter
-            agg = orch.run_batch(prop, e, "quick", 424242, 3600, max_runs=n, nw=nw)
+            agg = orch.run_batch(prop, e, TIER, 424242, 3600, max_runs=n, nw=nw)
             runs.append(agg)
             if agg["harness_errors"]:
                 print("HARNESS-ERROR", agg["harness_errors"][:2])
@@ -58,7 +59,7 @@ def determinism(engines, n):
             srv = orch.Serve(e, b, watchdog_s=getattr(eng, "WATCHDOG_S", 60))
             try:
                 for i, seed in items:
-                    plan = eng.gen_plan(seed, {"prop": prop, "tier": "quick"})
+                    plan = eng.gen_plan(seed, {"prop": prop, "tier": TIER})
                     r1 = srv.run(json.loads(json.dumps(plan)))
                     r2 = srv.run(json.loads(json.dumps(plan)))
                     checked += 1
